@@ -4,7 +4,7 @@ TIER=${1:-quick}
 FILTER=${2:-}
 HERE=$(cd "$(dirname "$0")" && pwd)
 mkdir -p /tmp/scratch
-for d in "$HERE"/m*${FILTER}*.diff; do
+for d in "$HERE"/*${FILTER}*.diff; do
   name=$(basename "$d" .diff)
   wt=/tmp/scratch/c19_$name
   git -C /repo worktree add --detach "$wt" HEAD >/dev/null 2>&1
